@@ -22,7 +22,7 @@ SPECIAL_V = {"max_pool1d": ["distinct", "negbig", "intvalued"], "max_pool2d": ["
 
 
 def gen_cases(tier, seed):
-    cases = nncommon.build_cases(tier, seed, "c06", budget={"quick": 250, "thorough": 12000}[tier], with_empty=True)
+    cases = nncommon.build_cases(tier, seed, "c06", budget={"quick": 500, "thorough": 12000}[tier], with_empty=True)
     out = []
     for c in cases:
         if c["op"] == "dropout":
